@@ -69,6 +69,62 @@ SIM_CHECKS = {
             'liveness is counted in loop() calls after the model deadline (2 allowed, the code needs 1)',
         ],
     },
+    'C08': {
+        'profiles': [('tz-history', 'plain')],
+        'runs': {'quick': 300000, 'thorough': 20000000},
+        'batch': {'quick': 2500, 'thorough': 40000},
+        'cells': 'c08',
+        'bitmap': True,
+        'needs_history_rule': True,
+        'extra_coverage': lambda total: {
+            'cached_year_transitions': {
+                'measure': 'ordered (zone, previously cached year, queried year) triples with both years in 1999..2050, '
+                           'for queries that met a processor last filled for the same zone',
+                'reached': bin(total.get('bitmap', 0)).count('1'),
+                'of': (268 + 387) * 52 * 52,
+            },
+        },
+        'rule': ('Each evaluation is one seeded run: 2-6 client TimeZone values (direct-bound to shared Basic/Extended '
+                 'processors, created by Basic/ExtendedZoneManager<1..4> via createForZoneInfo/createForZoneId, copies) '
+                 'over 1-3 zones per database, issuing 5-400 interleaved queries (getUtcOffset, getDeltaOffset, getAbbrev, '
+                 'getOffsetDateTime, ZonedDateTime::forEpochSeconds/forComponents, printTo, printShortTo, getZoneId) with '
+                 'in-range, year-boundary, boundary-year, far out-of-range and sentinel arguments; failing queries are '
+                 'repeated and interleaved with valid ones. Every answer is compared with the same query asked of two '
+                 'freshly constructed processors (two poison fills). A run is non-trivial when some query met a processor '
+                 'that was neither unfilled nor already filled for that zone and year. distinct_nontrivial counts DISTINCT '
+                 '(binding kind, processor state relative to the query, query kind, argument class) tuples reached.'),
+        'assumptions': [
+            'the oracle is the repository code itself on a fresh processor: whether the fresh answer is right is C01/C02/C07',
+            'two error values are equal whatever their payload',
+            'a crash that reproduces with the final op alone on a new device is not a history dependence and is left to C09',
+            'name lookups (C10) and INT32-extreme arguments (C09) are kept out of this profile',
+        ],
+    },
+    'C16': {
+        'profiles': [('tz-restore', 'plain')],
+        'runs': {'quick': 200000, 'thorough': 10000000},
+        'batch': {'quick': 2500, 'thorough': 40000},
+        'cells': 'c16',
+        'crash_note_ops': ('Q', 'QR', 'QN'),
+        'rule': ('Each evaluation is one seeded run of the device with its durable store: clients of all five kinds plus '
+                 'manual/UTC/error, SAVE (toTimeZoneData, serialised field by field into a 5-byte slot), REBOOT (every '
+                 'processor, manager and client destroyed; new managers with cache size 1..4 over the full registry or a '
+                 'seeded sorted/shuffled subset of 0..40 zones that does or does not contain the saved id), RESTORE through '
+                 'createForTimeZoneData, MANSET, interleaved query traffic keeping caches in arbitrary states. Oracle: the '
+                 'simulator\'s own catalogue. A run is non-trivial when it performed at least one RESTORE of a present slot. '
+                 'distinct_nontrivial counts DISTINCT (saved kind, restoring manager kind+size, registry relation, full/subset) '
+                 'tuples reached.'),
+        'assumptions': [
+            'a zone is identified by its ZoneInfo object; kind is TimeZone::getType()',
+            'restored and directly created values are compared with each other, not with a fresh processor (that is C08)',
+            'the saved form is 5 bytes written whole: nothing is torn; the restart contributes configuration diversity',
+        ],
+        'extra_coverage': lambda total: {
+            'zones_round_tripped': {'basic': len(total['cells'].get('c16.zones.b', ())),
+                                    'extended': len(total['cells'].get('c16.zones.x', ()))},
+            'manual_offset_pairs': len(total['cells'].get('c16.manual', ())),
+        },
+    },
 }
 
 
@@ -93,7 +149,7 @@ def determinism_slice(binary, profile, verif_seed, n=64):
     return {'seeds_rerun': n, 'mismatches': mism}
 
 
-def triage(prop, profile, variant, binary, tier, verif_seed, v, needs_history_rule=False):
+def triage(prop, profile, variant, binary, tier, verif_seed, v, needs_history_rule=False, crash_note_ops=()):
     """Confirm, minimise, re-confirm in a fresh process, match against known findings.
     Returns ('violation', replay_path) | ('known', entry) | ('note', text)."""
     original = K.gen_trace(binary, profile, v['seed'])
@@ -128,6 +184,14 @@ def triage(prop, profile, variant, binary, tier, verif_seed, v, needs_history_ru
                 return ('note', 'crash %s needs no history (reproduces with the final op alone: %s); '
                         'a fresh time zone fails too, so this is C09\'s subject, not C08\'s'
                         % (ref_class, ops[-1]))
+    if crash_note_ops and o2.kind in ('crash', 'timeout'):
+        # A crash inside an op that is not this property's surface (e.g. a plain query in the
+        # tz-restore profile) is C08's / C09's subject: note it, do not report it here.
+        head, lines = K.split_trace(minimised)
+        ops = [l for l in lines if l.split(' ')[0] not in ('CFG', 'REF')]
+        if ops and ops[-1].split(' ')[0] in crash_note_ops:
+            return ('note', 'crash %s inside "%s", which is not an operation this property speaks about; '
+                    'left to C08/C09' % (ref_class, ops[-1]))
     known = K.match_known(prop, ref_class, minimised, v['msg'])
     if known:
         return ('known', known)
@@ -164,7 +228,8 @@ def run_sim_check(prop, tier, verif_seed, spec=None, runs_override=None):
         while pos < want and exit_code == 0:
             res = K.run_batches(binary, profile, verif_seed, want - pos, batch, first_run=pos,
                                 use_bitmap=spec.get('bitmap', False),
-                                batch_timeout=spec.get('batch_timeout', 900))
+                                batch_timeout=spec.get('batch_timeout', 900),
+                                crash_note_ops=spec.get('crash_note_ops', ()))
             total['runs'] += res.runs
             total['nontrivial'] += res.nontrivial
             for k, v in res.counters.items():
@@ -179,7 +244,8 @@ def run_sim_check(prop, tier, verif_seed, spec=None, runs_override=None):
                 break
             v = res.violations[0]
             kind, info = triage(prop, profile, variant, binary, tier, verif_seed, v,
-                                needs_history_rule=spec.get('needs_history_rule', False))
+                                needs_history_rule=spec.get('needs_history_rule', False),
+                                crash_note_ops=spec.get('crash_note_ops', ()))
             triaged += 1
             if kind == 'violation':
                 print('VIOLATION property=%s replay=%s' % (prop, info))
@@ -230,7 +296,12 @@ def run_sim_check(prop, tier, verif_seed, spec=None, runs_override=None):
         'coverage': cov, 'assumptions': spec['assumptions'], 'wall_s': round(wall, 2),
         'violations': violations,
     }
-    K.write_evidence(prop, doc)
+    try:
+        K.write_evidence(prop, doc)
+    except K.HarnessError as e:
+        if exit_code != 1:
+            raise
+        K.log('[%s] evidence not written (%s); the violation stands' % (prop, e))
     K.log('[%s] %s tier: %d runs, %d non-trivial, %d cells, %.1fs, exit %d'
           % (prop, tier, total['runs'], total['nontrivial'], len(cells), wall, exit_code))
     return exit_code
